@@ -4,6 +4,8 @@ import NirVerif.Py.Basic
   exactly the distinctions the properties talk about (container kind, dtype, shape, bytes).
   Core Lean only.
 -/
+deriving instance DecidableEq for Except
+
 namespace NirVerif.Py
 
 /-- Error kinds; the correspondence compares these (class name only, never the message). -/
@@ -83,11 +85,13 @@ def fitsInt (dt : DType) (i : Int) : Bool :=
   | .uint => decide (0 ≤ i) && decide (i < (2 ^ (8 * dt.size) : Int))
   | _ => false
 
-/-- split a byte string into items of `w` bytes -/
-def chunks (w : Nat) (b : Bytes) : List Bytes :=
-  if _h : w = 0 ∨ b.length < w then [] else (b.take w) :: chunks w (b.drop w)
-termination_by b.length
-decreasing_by simp [List.length_drop]; omega
+/-- split a byte string into items of `w` bytes (fuel-structural so that it reduces in
+the kernel) -/
+def chunksAux (w : Nat) : Nat → Bytes → List Bytes
+  | 0, _ => []
+  | fuel + 1, b => if w = 0 ∨ b.length < w then [] else b.take w :: chunksAux w fuel (b.drop w)
+
+def chunks (w : Nat) (b : Bytes) : List Bytes := chunksAux w b.length b
 
 /-- the integers held by an integer-dtype array / scalar payload -/
 def decodeInts (dt : DType) (b : Bytes) : List Int := (chunks dt.size b).map (decodeInt dt)
